@@ -52,6 +52,8 @@ SNIPPETS = [
     "np.full_like(np.array([1.5, 2.5]), np.nan)", "np.zeros_like(np.array([1, 2, 3]), shape=2)", "np.round(np.array([1.23456, -0.5, 2.5]), 2)",
     "pd.Series([0.123456789012, 1.5]).round(decimals=9).tolist()",
     "np.abs(np.diff(np.array([[1.0, 5.0], [4.0, 3.0], [0.0, 6.0]]), axis=0))", "np.diff(np.array([[1, 5, 2], [4, 3, 9]]), axis=1)", "_u1()",
+    "np.searchsorted(np.array([1, 3, 3, 7]), np.array([0, 3, 4, 9]), side='right')", "np.searchsorted(np.array([1, 3, 3, 7]), 3)",
+    "np.zeros(3)[np.array([])]", "np.zeros(3)[np.array([], dtype=int)]", "np.array(sorted(set([]) | set([])))", "np.unique(np.append(np.array([], dtype=int), np.array([], dtype=int)))",
     "np.ceil(3 / 2)", "int(np.ceil(0 / 2))", "np.array([2, 9, 4])[0::2]", "np.array([5, 7, 9])[np.array([True, False, True])] - 2",
     # --- pandas
     "pd.DataFrame({'a': [1, 2, 3], 'b': [1.5, 2.5, 3.5]}).to_dict('records')", "len(pd.DataFrame())", "list(pd.DataFrame().columns)",
